@@ -14,6 +14,8 @@ import CLModel.Proofs.C01Sess
 import CLModel.Proofs.C01Dead
 import CLModel.Proofs.C01FluentC
 import CLModel.Proofs.C01Engine
+import CLModel.Parser.C01Gen
+import CLModel.Proofs.C01Gen
 namespace C01
 open P Rx
 
@@ -369,5 +371,121 @@ def repDepth : Re → Nat
   | _ => 0
 
 example : repDepth Gen.Pat.DTDParser_rePE = 2 ∧ ∀ p ∈ parserRegexes, repDepth p.2 ≤ 2 := by decide
+
+/-! ## Round 5: `walk()` / `__iter__` as generator objects — partial consumption, abandoned passes, interleaving
+
+`C01M.stepG` models ONE parser object with every mutable component explicit: the `Context` objects ever created
+(`heap`: contents + `filter_empty_lines`), `parser.ctx` (`cur`) and the generator objects ever returned by `walk()` /
+`iter()` (`gens`: not started / suspended at the `yield` with its captured context and `next_offset` / finished).
+`view f t loc` is what a fresh parser shows for text `t` (`loc` = localizable-only view).
+A regression that memoises yielded entries on the Context (or on the parser) while a pass is running — so that an
+abandoned first pass leaves a truncated list which later passes replay — contradicts `partial_walk_leaves_context`
+(a pass writes nothing but `filter_empty_lines`) and `walk_after_partial_is_fresh`. -/
+
+/-- No operation on generator objects — creating one, `k` × `next`, `list(g)`, closing or abandoning it — changes
+    which Context the parser holds or the contents of any Context; for the four formats whose walk keeps no state
+    outside its frame the Context objects are not written at all.  (`.inc`: only `filter_empty_lines` is written.) -/
+theorem partial_walk_leaves_context (f : Fmt) (σ : Obj) (op : Op) (h : ∀ t, op ≠ .read t) :
+    (stepG f σ op).1.cur = σ.cur ∧
+    (stepG f σ op).1.heap.map CtxO.s = σ.heap.map CtxO.s ∧
+    (f ≠ .inc → (stepG f σ op).1.heap = σ.heap) :=
+  let h := stepG_frame f σ op h
+  ⟨h.cur, h.contents, h.heap⟩
+
+/-- the same for any history without `readUnicode` (any number of partial, complete, interleaved, abandoned passes) -/
+theorem passes_leave_context (f : Fmt) (σ : Obj) (ops : List Op) (h : ∀ op ∈ ops, ∀ t, op ≠ .read t) :
+    (execG f σ ops).cur = σ.cur ∧
+    (execG f σ ops).heap.map CtxO.s = σ.heap.map CtxO.s ∧
+    (f ≠ .inc → (execG f σ ops).heap = σ.heap) :=
+  let h := execG_frame f ops σ h
+  ⟨h.cur, h.contents, h.heap⟩
+
+/-- A COMPLETE pass (`list(p.walk())`, `list(p)`, `p.parse()`) on a parser object in ANY state — whatever
+    generators exist, wherever they are suspended, whatever `filter_empty_lines` an abandoned `.inc` pass left on any
+    Context — shows exactly what a fresh parser shows for the contents of the current Context.  All five formats,
+    all texts. -/
+theorem walk_after_partial_is_fresh (f : Fmt) (σ : Obj) (cid : Nat) (c : CtxO) (loc : Bool)
+    (hcur : σ.cur = some cid) (hc : σ.heap[cid]? = some c) :
+    runG f σ [.mk loc, .drain σ.gens.length] = [.full (view f c.s loc)] := by
+  rw [fresh_pass, hcur]
+  simp only [hc]
+
+/-- … and a parser that holds no Context shows nothing, in any state -/
+theorem gen_noctx (f : Fmt) (σ : Obj) (loc : Bool) (hcur : σ.cur = none) :
+    runG f σ [.mk loc, .drain σ.gens.length] = [.full (.done [])] := by
+  rw [fresh_pass, hcur]
+
+/-- History form: after ANY history `h` on a new parser object (reads, generators created, partially consumed,
+    interleaved, drained, closed, abandoned — in any order), a complete pass shows the fresh parse of the text of the
+    LAST `readUnicode` of `h` (nothing if there was none). -/
+theorem complete_pass_after_any_history (f : Fmt) (h : List Op) (loc : Bool) :
+    runG f (execG f {} h) [.mk loc, .drain (countMk h)] =
+      [.full (match lastRead h none with | some t => view f t loc | none => .done [])] :=
+  complete_pass f h loc
+
+/-- A pass abandoned after `k` entries shows a PREFIX of the complete pass (exactly `k` entries when there are that
+    many, otherwise all of them), and resuming the same generator shows exactly the remaining suffix: nothing is
+    lost, duplicated or reordered by suspending a pass.  Any object state, all five formats. -/
+theorem partial_pass_is_prefix (f : Fmt) (σ : Obj) (loc : Bool) (k : Nat) :
+    ∃ es o, runG f σ [.mk loc, .drain σ.gens.length] = [.full (.done es)] ∧
+      runG f σ [.mk loc, .next σ.gens.length k, .drain σ.gens.length] =
+        [o, .full (.done (es.drop o.entries.length))] ∧
+      o.entries = es.take o.entries.length ∧
+      ((o = .part (es.take k) ∧ k ≤ es.length) ∨ o = .full (.done es)) :=
+  partial_pass f σ loc k
+
+/-- what `next`/`list` show of a generator is always the front of what remained of it, and what remains afterwards
+    is the rest (`remaining` = the walk from the generator's own `next_offset` on its own captured Context) -/
+theorem next_shows_front_of_remaining (f : Fmt) (k : Nat) (σ : Obj) (g : Nat) :
+    (∀ es, (nextK f k σ g).2 = .part es →
+      es.length = k ∧ remaining f σ g = prepend es (remaining f (nextK f k σ g).1 g)) ∧
+    (∀ r, (nextK f k σ g).2 = .full r → r = remaining f σ g ∧ remaining f (nextK f k σ g).1 g = .done []) :=
+  nextK_spec f k σ g
+
+theorem list_shows_remaining (f : Fmt) (σ : Obj) (g : Nat) :
+    (drainG f σ g).2 = .full (remaining f σ g) ∧ remaining f (drainG f σ g).1 g = .done [] :=
+  drainG_spec f σ g
+
+/-- INTERLEAVED passes, properties / DTD / ini / PO: what remains of generator `g` is unchanged by every operation
+    on other generators (created, consumed, drained, closed), so — with `next_shows_front_of_remaining` — the
+    concatenation of everything `g` shows, under any interleaving, is what remained when it was created. -/
+theorem interleaved_walks_independent (f : Fmt) (hf : f ≠ .inc) (σ : Obj) (g : Nat) (op : Op) (hg : g < σ.gens.length)
+    (hnr : ∀ t, op ≠ .read t) (ht : target op ≠ some g) :
+    remaining f (stepG f σ op).1 g = remaining f σ g :=
+  stepG_other f hf σ g op hg hnr ht
+
+/-- non-vacuity / the shape of the missed regression: `a=b⏎c=d⏎`; a full pass abandoned after ONE entry, a
+    localizable pass abandoned after ZERO entries, then `list(p)` and `list(p.walk())`: both complete and fresh -/
+example :
+    runG .properties {} [.read #[97, 61, 98, 10, 99, 61, 100, 10],
+      .mk false, .next 0 1, .close 0, .mk true, .next 1 0, .mk true, .drain 2, .mk false, .drain 3] =
+    [.part [{ kind := .entity, full := 0, s := 0, e := 3, ks := 0, ke := 1, vs := 2, ve := 3 }],
+     .part [],
+     .full (.done [{ kind := .entity, full := 0, s := 0, e := 3, ks := 0, ke := 1, vs := 2, ve := 3 },
+                   { kind := .entity, full := 4, s := 4, e := 7, ks := 4, ke := 5, vs := 6, ve := 7 }]),
+     .full (.done [{ kind := .entity, full := 0, s := 0, e := 3, ks := 0, ke := 1, vs := 2, ve := 3 },
+                   { kind := .whitespace, full := 3, s := 3, e := 4, ks := 3, ke := 4, vs := 3, ve := 4 },
+                   { kind := .entity, full := 4, s := 4, e := 7, ks := 4, ke := 5, vs := 6, ve := 7 },
+                   { kind := .whitespace, full := 7, s := 7, e := 8, ks := 7, ke := 8, vs := 7, ve := 8 }])] := by
+  decide +kernel
+
+/-- negation witness for `hf` in `interleaved_walks_independent`: `.inc` passes share `ctx.filter_empty_lines`.
+    `#define x⏎#filter emptyLines⏎⏎`: pass 0 has gone past `#filter emptyLines`; starting pass 1 resets the flag
+    (`DefinesParser.walk`); pass 0 then reports the blank line as Junk, where a fresh parse has white-space.
+    (The real code does the same: candidate finding C01-inc-interleaved-walks-share-filter-flag, see NOTES.) -/
+example :
+    runG .inc {} [.read #[35, 100, 101, 102, 105, 110, 101, 32, 120, 10, 35, 102, 105, 108, 116, 101, 114, 32, 101, 109, 112, 116, 121, 76, 105, 110, 101, 115, 10, 10],
+      .mk false, .next 0 3, .mk true, .next 1 1, .drain 0] =
+    [.part [{ kind := .entity, full := 0, s := 0, e := 9, ks := 8, ke := 9 },
+            { kind := .whitespace, full := 9, s := 9, e := 10, ks := 9, ke := 10, vs := 9, ve := 10 },
+            { kind := .instruction, full := 10, s := 10, e := 28, ks := 11, ke := 28, vs := 11, ve := 28 }],
+     .part [{ kind := .entity, full := 0, s := 0, e := 9, ks := 8, ke := 9 }],
+     .full (.done [{ kind := .junk, full := 28, s := 28, e := 30 }])] ∧
+    walk .inc #[35, 100, 101, 102, 105, 110, 101, 32, 120, 10, 35, 102, 105, 108, 116, 101, 114, 32, 101, 109, 112, 116, 121, 76, 105, 110, 101, 115, 10, 10] =
+      .done [{ kind := .entity, full := 0, s := 0, e := 9, ks := 8, ke := 9 },
+             { kind := .whitespace, full := 9, s := 9, e := 10, ks := 9, ke := 10, vs := 9, ve := 10 },
+             { kind := .instruction, full := 10, s := 10, e := 28, ks := 11, ke := 28, vs := 11, ve := 28 },
+             { kind := .whitespace, full := 28, s := 28, e := 30, ks := 28, ke := 30, vs := 28, ve := 30 }] := by
+  decide +kernel
 
 end C01
